@@ -45,24 +45,24 @@ public:
 
    HtModel(unsigned partMask, int ss, bool th, int lay) : mask(partMask), startSet(ss), thorough(th), layout(lay)
    {
-      const unsigned S = M_SMALL | M_FULL, B = M_BOUND, H = M_HUGE, O = M_ORD, F = M_FULL, L = M_ALIAS;
+      const unsigned S = M_SMALL | M_FULL, C = M_CORE | M_SMALL | M_FULL, B = M_BOUND, H = M_HUGE, O = M_ORD, F = M_FULL, L = M_ALIAS;
       // keys: k0 (head), k3 (second), k1 (middle), k2 (tail) are present in the populated start states; k4, k5 are absent; k6 is never present
-      A(S | B | H | O | L, PUT, 0, 0, 5);          // existing key (head), new value
-      A(S | B | H | O | L, PUT, 5, 0, 3);          // new key (forces a regrow when the table is full)
+      A(C | B | H | O | L, PUT, 0, 0, 5);          // existing key (head), new value
+      A(C | B | H | O | L, PUT, 5, 0, 3);          // new key (forces a regrow when the table is full)
       A(S | O, PUT, 4, 0, 2);
       A(F | O, PUT, 3, 0, 1);
       A(S | B | O, PUT_PREV, 1, 0, 4);
-      A(S | B | H, PUT_FRONT, 2, 0, 2);            // existing tail -> front
+      A(C | B | H, PUT_FRONT, 2, 0, 2);            // existing tail -> front
       A(S | B, PUT_FRONT, 4, 0, 1);                // new key at front
       A(S | B | H, PUT_BACK, 0, 0, 3);
-      A(S | B | H, PUT_BEFORE, 4, 1, 2);           // new key before the middle
+      A(C | B | H, PUT_BEFORE, 4, 1, 2);           // new key before the middle
       A(S | B, PUT_BEFORE, 1, 0, 2);               // existing key moved
       A(F, PUT_BEFORE, 3, 3, 1);                   // before itself: documented to act like Put
       A(S | B, PUT_BEHIND, 4, 0, 1);
-      A(S | B | H, PUT_BEHIND, 0, 2, 3);
+      A(C | B | H, PUT_BEHIND, 0, 2, 3);
       A(F, PUT_BEHIND, 3, 6, 1);                   // absent target: documented to act like Put
       A(S | B | H, PUT_AT, 3, P1, 2);              // already at position 1: unconditional unlink/relink
-      A(S | B | H, PUT_AT, 0, PMID, 1);
+      A(C | B | H, PUT_AT, 0, PMID, 1);
       A(F | B, PUT_AT, 1, PMID, 1);
       A(F, PUT_AT, 2, PSIZE1, 1);
       A(S, PUT_AT, 5, P0, 1);
@@ -75,55 +75,55 @@ public:
       A(S | B | O, PUTORREMOVE, 1, 0, 0);          // value == default -> removes
       A(F | O, PUTORREMOVE, 4, 0, 3);
       A(S | B | H | O | L, PUT_SELFVAL, 4);        // value argument aliases the table's own storage (guarded in PutAux)
-      A(S | B | H | O, PUT_TABLE);
+      A(C | B | H | O, PUT_TABLE);
       A(S | B | H, GET_MTF, 1);
       A(S | B | H, GET_MTB, 0);
-      A(S | B | H | O | L, REMOVE, 0);
-      A(S | B | H | O, REMOVE, 1);
-      A(S | B | H | O, REMOVE, 2);
+      A(C | B | H | O | L, REMOVE, 0);
+      A(C | B | H | O, REMOVE, 1);
+      A(C | B | H | O, REMOVE, 2);
       A(F, REMOVE, 3);
       A(F | O, REMOVE_RET, 1);
       A(F | O, REMOVE_DEF, 4);
-      A(S | B | H | O, REMOVE_FIRST);
-      A(S | B | H | O, REMOVE_LAST);
+      A(C | B | H | O, REMOVE_FIRST);
+      A(C | B | H | O, REMOVE_LAST);
       A(F | O, REMOVE_FIRST_KV);
       A(F | O, REMOVE_LAST_K);
       A(S | B | H | O, REMOVE_TABLE);
       A(S | B | O, REMOVE_SELF);
-      A(S | B | H | O, INTERSECT);
-      A(S | B | H, MTF, 1);
+      A(C | B | H | O, INTERSECT);
+      A(C | B | H, MTF, 1);
       A(S | B, MTF, 2);
-      A(S | B | H, MTB, 0);
+      A(C | B | H, MTB, 0);
       A(S | B, MTB, 1);
-      A(S | B | H, MBEFORE, 2, 0);
+      A(C | B | H, MBEFORE, 2, 0);
       A(S | B, MBEFORE, 0, 1);
       A(F, MBEFORE, 1, 1);
       A(F, MBEFORE, 0, 6);
-      A(S | B | H, MBEHIND, 0, 2);
+      A(C | B | H, MBEHIND, 0, 2);
       A(S | B, MBEHIND, 1, 0);
       A(S | B, MPOS, 0, P1);
-      A(S | B | H, MPOS, 1, PMID);
+      A(C | B | H, MPOS, 1, PMID);
       A(F, MPOS, 2, PSIZE);
       A(S | B, MPOS, 2, P0);
-      A(S | B | H, SORTKEY);
-      A(S | B | H, SORTVAL);
+      A(C | B | H, SORTKEY);
+      A(C | B | H, SORTVAL);
       A(F | O, SORT);
       A(O, REPOSITION, 1);
-      A(S | B | O, ENSURE_DOUBLE);
+      A(C | B | O, ENSURE_DOUBLE);
       A(F | B | O, ENSURE_CANPUT);
-      A(S | B | H | O, SHRINK);
+      A(C | B | H | O, SHRINK);
       A(F | B | O, SHRINK1);
       A(F | B, ENSURE_SHRINK);
-      A(S | B | H | O, CLEAR);
-      A(S | B | H | O, CLEAR_REL);
-      A(S | B | H | O, ASSIGN_T_U);
+      A(C | B | H | O, CLEAR);
+      A(C | B | H | O, CLEAR_REL);
+      A(C | B | H | O, ASSIGN_T_U);
       A(S | B | O, ASSIGN_U_T);
-      A(S | B | H | O, SWAP);
+      A(C | B | H | O, SWAP);
       A(F | B | O, MOVE_T_U);
       A(F | B | O, COPYCTOR);
       A(F | O, MOVECTOR);
-      A(S | B | H | O | L, MOVETOTABLE, 0);
-      A(S | B | O, MOVEFROMTABLE, 4);
+      A(C | B | H | O | L, MOVETOTABLE, 0);
+      A(C | B | O, MOVEFROMTABLE, 4);
       A(F | B | O, COPYTOTABLE, 1);
       A(S | B | O, SWAPWITHTABLE, 1);
       A(F | O, SWAPWITHTABLE, 4);
@@ -132,23 +132,23 @@ public:
       A(F | O, WOULDPUT, 4, 0, 2);
       A(F | O, WOULDPUT, 4, 0, 9);
       A(F | O, WOULDREMOVE, 0);
-      A(S | B | O, U_REMOVE, 1);
+      A(C | B | O, U_REMOVE, 1);
       A(F | B | O, U_PUT, 0, 0, 7);
       A(F | B | O, U_CLEAR);
-      A(S | B | H | O, IT_NEW, 0, 0, -1);
-      A(S | B | H | O, IT_NEW, 1, 1, -1);
+      A(C | B | H | O, IT_NEW, 0, 0, -1);
+      A(C | B | H | O, IT_NEW, 1, 1, -1);
       A(F | B | O, IT_NEW, 0, 0, 1);
       A(F | B | O, IT_NEW, 1, 1, 1);
-      A(S | B | H | O, IT_ADV, 0);
-      A(S | B | H | O, IT_ADV, 1);
-      A(S | B | O, IT_RET, 0);
+      A(C | B | H | O, IT_ADV, 0);
+      A(C | B | H | O, IT_ADV, 1);
+      A(C | B | O, IT_RET, 0);
       A(F, IT_RET, 1);
-      A(S | B | O, IT_COPY);
+      A(C | B | O, IT_COPY);
       A(F | B | O, IT_SWAP);
       A(F | B, IT_FLIP, 0);
-      A(S | B | H | O, IT_DEL, 0);
-      A(S | B | H | O, IT_DEL, 1);
-      A(S | B | H | O, DESTROY_T);
+      A(C | B | H | O, IT_DEL, 0);
+      A(C | B | H | O, IT_DEL, 1);
+      A(C | B | H | O, DESTROY_T);
       // arguments that are references into the table's own storage
       A(L, AL_PUTBEFORE, 4, 0, 2);
       A(L, AL_PUTBEHIND, 4, 0, 2);
@@ -205,6 +205,7 @@ public:
    void Init(World & w, int s) const
    {
       const Start & st = starts[s];
+      SetConsoleLogLevel(MUSCLE_LOG_NONE);   // the out-of-memory warning of a failing Put (see MoveCtor) would otherwise be printed, with a stack trace, for every such transition
       const uint32 c = (uint32)st.hcap;
       g_hash[0] = 0; g_hash[1] = 0; g_hash[2] = 1; g_hash[3] = c; g_hash[4] = c; g_hash[5] = 2 * c; g_hash[6] = 3; g_hash[7] = 0;
       if (st.ensure) (void) w.t->EnsureSize((uint32)st.ensure);
